@@ -7,8 +7,8 @@
    real heap for every rewrite of every suite run (harness/pyside.py: ser with audit, snapshot). *)
 From Coq Require Import List NArith ZArith QArith Bool.
 From Mathy Require Import Num Expr Util Rules Sem.
-From Mathy Require Import Walk.
-From MathyProofs Require Import ExprFacts RulesSoundA RulesSoundB RulesSoundC RulesSoundD VarsFacts RulesVarsA RulesVarsB RulesVarsC RulesVarsD.
+From Mathy Require Import Walk Heap Plans HeapPlan.
+From MathyProofs Require Import ExprFacts RulesSoundA RulesSoundB RulesSoundC RulesSoundD VarsFacts RulesVarsA RulesVarsB RulesVarsC RulesVarsD PlansFacts HeapPlanFacts.
 Import ListNotations.
 
 (* the neighbourhood of a rewrite: the node itself, or its parent for the associative rotation *)
@@ -74,6 +74,64 @@ Example C07_variables_example :
   let root := Bin KEq (Bin KAdd (Bin KMul (Const (NInt 4)) (Var 120%N)) (Var 121%N)) (Const (NInt 2)) in
   exists z, apply root [DL; DR] RBalanced = ROk z /\ can_apply root [DL; DR] RBalanced = true /\ fst z <> root /\ vars (fst z) = [120%N; 121%N].
 Proof. eexists. vm_compute. repeat split. discriminate. Qed.
+
+(* ---- the node OBJECTS (theories/Plans.v, theories/HeapPlan.v) ----
+   Every rule's apply_to has an object-level plan: which old node objects are in its result and where, which are fresh. *)
+
+(* the plan stands for exactly the tree the expression-level model computes ... *)
+Theorem C07_plan_is_the_rewrite : forall r root p z, can_apply root p r = true -> apply root p r = ROk z ->
+  exists q pl at_ e, rule_plan root p r = Some (q, pl) /\ subtree root q = Some at_ /\ erasep at_ pl = Some e /\ fst z = replace root q e.
+Proof. exact plan_matches. Qed.
+Print Assumptions C07_plan_is_the_rewrite.
+
+(* ... and no old node object is used twice in it (no node object occurs twice in the result) *)
+Theorem C07_no_object_twice : forall r root p q pl, rule_plan root p r = Some (q, pl) -> linearb pl = true.
+Proof. exact plans_linear. Qed.
+Print Assumptions C07_no_object_twice.
+
+(* Executed on ANY heap that holds the tree with consistent links (wf_tree: every child's parent pointer leads back, arities by
+   class, no object twice, root without parent) - constructors, set_left/set_right as in Heap.v, done() as parent.set_side - the
+   rewrite leaves a heap that holds the rewritten tree with consistent links, no object twice and a parentless root; objects that
+   do not belong to the tree (in particular the tree a copy was cloned from) are not written. Every rule; for the associative
+   rotation whose parent is the root (the node itself becomes the root: rotate() clears its parent pointer) see C15_heap_rotate_root. *)
+Theorem C07_heap_rewrite : forall r root p z whole h,
+  ierase whole = root -> wf_tree h whole -> can_apply root p r = true -> apply root p r = ROk z ->
+  exists q pl, rule_plan root p r = Some (q, pl) /\
+    ((q = [] -> top_ok pl = true) ->
+     exists h' T', run_plan whole q pl h = Some (h', iaddr T') /\ wf_tree h' T' /\ ierase T' = fst z /\
+       (forall b, (b < length h)%nat -> ~ In b (iaddrs whole) -> nth_error h' b = nth_error h b) /\
+       (forall b, In b (iaddrs T') -> In b (iaddrs whole) \/ (length h <= b)%nat)).
+Proof.
+  intros r root p z whole h Ew WF C A. destruct (plan_matches r root p z C A) as (q & pl & at_ & e & RP & Hs & Er & Ez).
+  exists q, pl. split; [exact RP|]. intros TOP. subst root.
+  destruct (subtree_isub _ _ _ Hs) as (ctx & Ec & Ee). subst at_.
+  destruct (run_plan_wf whole h q ctx pl e WF Ec (plans_linear _ _ _ _ _ RP) Er TOP) as (h' & T' & X & W & E & F & I).
+  exists h', T'. rewrite Ez, <- E. auto.
+Qed.
+Print Assumptions C07_heap_rewrite.
+
+(* the side condition holds for every rule but the rotation *)
+Theorem C07_heap_rewrite_side_condition : forall r root p q pl, r <> RAssoc -> rule_plan root p r = Some (q, pl) -> top_ok pl = true.
+Proof. exact plans_top_ok. Qed.
+Print Assumptions C07_heap_rewrite_side_condition.
+
+(* non-vacuity: a heap built by the constructors holds a well-formed tree, and a rewrite on it (factor-out in the chained-left
+   arrangement, below a subtraction) runs to a well-formed heap in which the kept objects are the old ones *)
+Example C07_heap_example :
+  let root := Bin KSub (Bin KAdd (Bin KAdd (Const (NInt 4)) (Var 112%N)) (Var 112%N)) (Var 122%N) in
+  let h := fst (alloc [] root) in
+  let whole := IBin 6 KSub (IBin 4 KAdd (IBin 2 KAdd (IConst 0 (NInt 4)) (IVar 1 112%N)) (IVar 3 112%N)) (IVar 5 122%N) in
+  ierase whole = root /\ wf_tree h whole /\
+    exists pl h', rule_plan root [DL] (RFactor false) = Some ([DL], pl) /\ run_plan whole [DL] pl h = Some (h', 6%nat) /\
+      length h = 7%nat /\ length h' = 13%nat /\ option_map h_l (nth_error h' 12%nat) = Some (Some 0%nat) /\ option_map h_p (nth_error h' 0%nat) = Some (Some 12%nat) /\
+      option_map h_l (nth_error h' 6%nat) = Some (Some 12%nat).
+Proof.
+  cbv zeta. split; [reflexivity|]. split.
+  - split.
+    + vm_compute. repeat (eexists; repeat (split; try reflexivity)).
+    + vm_compute. repeat constructor; cbn; intuition discriminate.
+  - eexists _, _. split; [vm_compute; reflexivity|]. split; [vm_compute; reflexivity|]. repeat split.
+Qed.
 
 Example C07_example :
   let root := Bin KSub (Bin KMul (Var 121%N) (Bin KAdd (Bin KMul (Const (NInt 4)) (Var 120%N)) (Bin KMul (Const (NInt 2)) (Var 120%N)))) (Var 122%N) in
